@@ -11,7 +11,9 @@
 package fetcher
 
 import (
+	"bytes"
 	"context"
+	"slices"
 
 	"github.com/sourcenetwork/corekv"
 
@@ -19,6 +21,7 @@ import (
 	"github.com/sourcenetwork/defradb/errors"
 	"github.com/sourcenetwork/defradb/internal/connor"
 	"github.com/sourcenetwork/defradb/internal/db/id"
+	"github.com/sourcenetwork/defradb/internal/encoding"
 	"github.com/sourcenetwork/defradb/internal/keys"
 	"github.com/sourcenetwork/defradb/internal/planner/filter"
 	"github.com/sourcenetwork/defradb/internal/planner/mapper"
@@ -239,6 +242,8 @@ type inIndexIterator struct {
 	fieldConditions []fieldFilterCond
 	matchers        []valueMatcher
 	isUnique        bool
+	// reverse is true if the index has to be read backwards to deliver the requested order
+	reverse bool
 }
 
 var _ indexIterator = (*inIndexIterator)(nil)
@@ -271,7 +276,9 @@ func (iter *inIndexIterator) nextIterator() (bool, error) {
 
 // createIteratorForNextValue initializes the next index iterator based on the current value index.
 func (iter *inIndexIterator) createIteratorForNextValue() error {
-	if iter.isUnique {
+	// entries with a nil field carry the docID in the key (see makeUniqueKeyValueRecord),
+	// so a nil value can not be fetched by the full key even on a unique index
+	if iter.isUnique && !iter.inValues[iter.nextValIndex].IsNil() {
 		indexIter, err := iter.fetcher.newEqSingleIndexIterator(iter.inValues[iter.nextValIndex], iter.fieldConditions)
 		if err != nil {
 			return err
@@ -287,7 +294,8 @@ func (iter *inIndexIterator) createIteratorForNextValue() error {
 			Descending: iter.fetcher.indexDesc.Fields[0].Descending,
 		}}
 
-		iter.indexIterator = iter.fetcher.newPrefixBaseMatchIterator(indexKey, iter.matchers, iter.fetcher.execInfo)
+		iter.indexIterator = iter.fetcher.newPrefixBaseMatchIterator(indexKey, iter.matchers, iter.fetcher.execInfo).
+			Reverse(iter.reverse)
 	}
 
 	return nil
@@ -463,20 +471,65 @@ func (f *indexFetcher) newInIndexIterator(
 
 	isUnique := isUniqueFetchByFullKey(&f.indexDesc, fieldConditions)
 
+	// Every value is visited once: a repeated list element must not yield its documents again.
+	// If the planner relies on this index for the requested order (it drops the order node, see
+	// CanBeOrderedByIndex) the values are also visited in the order of the index, which the
+	// order of the list can not stand in for.
+	ordered, reverse := CanBeOrderedByIndex(f.ordering, f.indexDesc, f.mapping)
+	reverse = ordered && reverse
+	inValues = uniqueInValues(inValues, f.indexDesc.Fields[0].Descending, ordered, reverse)
+
 	inIter := &inIndexIterator{
 		inValues:        inValues,
 		fetcher:         f,
 		fieldConditions: fieldConditions,
 		matchers:        matchers,
 		isUnique:        isUnique,
+		reverse:         reverse,
 	}
 
-	err = inIter.createIteratorForNextValue()
-	if err != nil {
-		return nil, err
+	// with an empty list there is no value to create the first iterator for;
+	// Init finds nothing to iterate over and Next reports the end
+	if len(inValues) > 0 {
+		err = inIter.createIteratorForNextValue()
+		if err != nil {
+			return nil, err
+		}
 	}
 
 	return inIter, nil
+}
+
+// uniqueInValues returns the given values without duplicates. If sorted is true, they are put in
+// the order in which the index stores them (in the opposite order if reverse is true as well),
+// otherwise they keep the order of the list.
+func uniqueInValues(values []client.NormalValue, descending, sorted, reverse bool) []client.NormalValue {
+	type encodedValue struct {
+		key   []byte
+		value client.NormalValue
+	}
+	encoded := make([]encodedValue, 0, len(values))
+	seen := make(map[string]struct{}, len(values))
+	for _, value := range values {
+		key := encoding.EncodeFieldValue(nil, value, descending)
+		if _, ok := seen[string(key)]; ok {
+			continue
+		}
+		seen[string(key)] = struct{}{}
+		encoded = append(encoded, encodedValue{key: key, value: value})
+	}
+	if sorted {
+		slices.SortStableFunc(encoded, func(a, b encodedValue) int { return bytes.Compare(a.key, b.key) })
+		if reverse {
+			slices.Reverse(encoded)
+		}
+	}
+
+	result := make([]client.NormalValue, len(encoded))
+	for i := range encoded {
+		result[i] = encoded[i].value
+	}
+	return result
 }
 
 func (f *indexFetcher) newIndexDataStoreKey() (keys.IndexDataStoreKey, error) {
